@@ -549,3 +549,168 @@ Proof.
   intros H. specialize (H "a"%string ds_new c5_b0 (or_introl eq_refl) eq_refl). vm_compute in H.
   exact (Nat.nle_succ_0 _ H).
 Qed.
+
+(** ---- durability of a whole on-disk pool (Proofs/C05_OnDiskDurable.v) ---- *)
+From Elfi Require Import Proofs.C05_OnDiskDurable.
+
+(** The per-store statements C05_on_disk_flush_loads / _reopen_restores / _crash_prefix speak of a
+    store reached from a new store by a pool history; [dp_reach]: every store of the disk pool is
+    such a store ([ds_hist n d ps]: store [d] of node [n] = the new store after pool operations [ps]).
+    The empty pool is, and runs keep it (second component of the statements below). *)
+Theorem C05_on_disk_pool_reach_empty :
+  forall bs orc keys, dp_reach bs orc (empty_dpool keys).
+Proof. exact empty_dpool_reach. Qed.
+Print Assumptions C05_on_disk_pool_reach_empty.
+
+(** what [Pool.get_batch] of the abstraction answers: per store the i-th batch the store reports *)
+Theorem C05_on_disk_pool_get_batch_batches :
+  forall bs (enc : name -> batch -> value) dp i,
+  Pool.get_batch (abs_pool bs enc dp) i
+  = map (fun nd : name * dstore => (fst nd, option_map (enc (fst nd)) (nth_error (ds_batches bs (snd nd)) i)))
+        (dp_stores dp).
+Proof. exact dpool_get_batch_batches. Qed.
+Print Assumptions C05_on_disk_pool_get_batch_batches.
+
+(** ArrayPool.flush / save of all stores: the abstraction is unchanged; every store [d'] of the
+    flushed pool comes from a store [d] of [dp] with the same batches, which are the batches
+    [abs_pool dp] holds for that node; when the store holds a batch (side condition, per store: a
+    store that never received a batch has no initialised file), nothing is pending on its file and
+    numpy loads the file to exactly these batches.  So a pool saved after a run and read by another
+    process yields [Pool.get_batch (abs_pool dp) i] for every i (previous theorem). *)
+Theorem C05_on_disk_pool_flush_loads :
+  forall bs, 0 < bs -> forall (orc : name -> oracle) (enc : name -> batch -> value) dp,
+  dp_reach bs orc dp ->
+  let dp' := dp_all bs orc dp [PFlush] in
+  dp_reach bs orc dp' /\ abs_pool bs enc dp' = abs_pool bs enc dp /\
+  forall n d', In (n, d') (dp_stores dp') ->
+    exists d, In (n, d) (dp_stores dp) /\ d' = ds_run bs orc n d [PFlush]
+      /\ ds_batches bs d' = ds_batches bs d
+      /\ In (n, abs_store enc n (ds_batches bs d)) (stores (abs_pool bs enc dp))
+      /\ (forall i, store_get (abs_store enc n (ds_batches bs d)) i
+                    = option_map (enc n) (nth_error (ds_batches bs d) i))
+      /\ (0 < List.length (ds_batches bs d) ->
+          f_buf (ds_file d') = [] /\ loads (f_disk (ds_file d')) = Some (flat (ds_batches bs d))).
+Proof. exact dpool_flush_loads. Qed.
+Print Assumptions C05_on_disk_pool_flush_loads.
+
+(** save + ArrayPool.open: flush then close/open of all stores leaves the abstraction unchanged, the
+    reopened pool answers every [disk_get_batch] as before (and as [Pool.get_batch] of the
+    abstraction), and the open of every store that holds a batch does not raise and reads the same
+    batches from the new object *)
+Theorem C05_on_disk_pool_reopen_restores :
+  forall bs, 0 < bs -> forall (orc : name -> oracle) (enc : name -> batch -> value) dp,
+  dp_reach bs orc dp ->
+  let dp1 := dp_all bs orc dp [PFlush] in
+  let dp2 := dp_all bs orc dp [PFlush; PReopen] in
+  dp2 = dp_all bs orc dp1 [PReopen]
+  /\ dp_reach bs orc dp2
+  /\ abs_pool bs enc dp2 = abs_pool bs enc dp
+  /\ (forall i, snd (disk_get_batch bs orc dp2 i) = snd (disk_get_batch bs orc dp i))
+  /\ (forall i, disk_loaded bs orc enc dp2 i = Pool.get_batch (abs_pool bs enc dp) i)
+  /\ (forall n d1, In (n, d1) (dp_stores dp1) -> 0 < List.length (ds_batches bs d1) ->
+        let h := hstep current bs (orc n) (ds_tick d1) (ds_mem d1) (ds_file d1) Reopen in
+        r_err h = false /\ forall k, disk_get bs (r_mem h) (r_file h) k = ds_get bs d1 k).
+Proof. exact dpool_reopen_restores. Qed.
+Print Assumptions C05_on_disk_pool_reopen_restores.
+
+(** Pool-level crash safety (the restart scenario of test_pool_restarts).  Run 1, ArrayPool.flush of
+    all stores, run 2 (any net, any cache; [idxs2] = the batches run 2 completed).  For every store
+    [d3] of the final pool: the final abstraction holds [abs_store n (ds_batches d3)] for its node, and
+    there is the store [d1] it was at the end of run 1 with [kill_safe n d1 d3]:
+      there are pool histories [ps1] (new store -> [d1]) and [qs] (after the flush) of THIS store,
+      [ps1 ++ PFlush :: qs] leading to [d3], such that, when the store held a batch at the flush, for
+      every kill point of the store operations [compile (ds_batches d1) qs = mid ++ op :: tail] that
+      follow the flush and every number [j] of low-level operations of [op] done before the kill, the
+      file left loads to the first [m] batches of [d3], [held at the flush <= m <= held at the end],
+      and the abstraction of these [m] batches answers batch i < m as the final pool does and holds
+      nothing else (never a torn or foreign batch).
+    Side conditions: [dp_reach] of the starting pool; representability at every step ([repr_at]);
+    per store, a batch held at the flush.  No contiguity condition. *)
+Theorem C05_on_disk_pool_crash_prefix :
+  forall bs, 0 < bs -> forall orc enc dec idxs1 idxs2 ds ds1 obs1 g2 c2 ds3 obs2,
+  dp_reach bs orc (dr_pool ds) ->
+  run_all bs orc enc dec (repr_at bs enc dec) ds idxs1 ->
+  run_batches_disk bs orc enc dec ds idxs1 = Ok (ds1, obs1) ->
+  let ds2 := {| dr_net := g2; dr_pool := dp_all bs orc (dr_pool ds1) [PFlush]; dr_cache := c2 |} in
+  run_all bs orc enc dec (repr_at bs enc dec) ds2 idxs2 ->
+  run_batches_disk bs orc enc dec ds2 idxs2 = Ok (ds3, obs2) ->
+  dp_reach bs orc (dr_pool ds3) /\
+  forall n d3, In (n, d3) (dp_stores (dr_pool ds3)) ->
+    In (n, abs_store enc n (ds_batches bs d3)) (stores (abs_pool bs enc (dr_pool ds3))) /\
+    exists d1, In (n, d1) (dp_stores (dr_pool ds1)) /\
+      exists ps1 qs,
+        ds_hist bs orc n d1 ps1 /\ ds_hist bs orc n d3 (ps1 ++ PFlush :: qs) /\
+        (0 < List.length (ds_batches bs d1) ->
+         forall mid op tail j, compile (ds_batches bs d1) qs = mid ++ op :: tail ->
+         exists m, List.length (ds_batches bs d1) <= m /\ m <= List.length (ds_batches bs d3) /\
+           loads (crash_disk current bs (orc n) (compile [] ps1 ++ Flush :: mid) op j)
+           = Some (flat (firstn m (ds_batches bs d3))) /\
+           forall i, store_get (abs_store enc n (firstn m (ds_batches bs d3))) i
+                     = if i <? m then store_get (abs_store enc n (ds_batches bs d3)) i else None).
+Proof. exact dpool_crash_prefix. Qed.
+Print Assumptions C05_on_disk_pool_crash_prefix.
+
+(** ... and when run 1 is over batches 0 .. k-1, every store of a node of the net (or of the
+    handler's output set) holds at least k batches at the flush: [k <= m] above *)
+Theorem C05_on_disk_pool_crash_prefix_batches :
+  forall bs, 0 < bs -> forall orc enc dec k ds ds1 obs1,
+  dp_reach bs orc (dr_pool ds) -> CacheOK (dr_cache ds) ->
+  run_all bs orc enc dec (repr_at bs enc dec) ds (seq 0 k) ->
+  run_batches_disk bs orc enc dec ds (seq 0 k) = Ok (ds1, obs1) ->
+  forall n d1, In (n, d1) (dp_stores (dr_pool ds1)) ->
+    has n (c_nodes (dr_net ds1)) = true \/ In n (c_outputs (dr_net ds1)) ->
+    k <= List.length (ds_batches bs d1).
+Proof. exact dpool_crash_prefix_batches. Qed.
+Print Assumptions C05_on_disk_pool_crash_prefix_batches.
+
+(** the restart scenario in one statement: run 1 over batches 0 .. k-1, flush of all stores, run 2 of
+    the same handler over batches k .. k+n2-1; both runs are the runs of Pool.v on the abstraction,
+    and for every store of a node of the net a kill at any point of run 2 leaves a file that loads
+    to batches 0 .. m-1 of what the run produced, k <= m ([kill_safe]: the last component of
+    C05_on_disk_pool_crash_prefix) *)
+Theorem C05_on_disk_pool_crash_restart :
+  forall bs, 0 < bs -> forall orc enc dec k n2 ds ds1 obs1 ds3 obs2,
+  dp_reach bs orc (dr_pool ds) -> CacheOK (dr_cache ds) ->
+  run_all bs orc enc dec (repr_at bs enc dec) ds (seq 0 k) ->
+  run_batches_disk bs orc enc dec ds (seq 0 k) = Ok (ds1, obs1) ->
+  let ds2 := {| dr_net := dr_net ds1; dr_pool := dp_all bs orc (dr_pool ds1) [PFlush]; dr_cache := dr_cache ds1 |} in
+  run_all bs orc enc dec (repr_at bs enc dec) ds2 (seq k n2) ->
+  run_batches_disk bs orc enc dec ds2 (seq k n2) = Ok (ds3, obs2) ->
+  Pool.run_batches (abs_state bs enc ds) (seq 0 k) = Ok (abs_state bs enc ds1, obs1)
+  /\ Pool.run_batches (abs_state bs enc ds1) (seq k n2) = Ok (abs_state bs enc ds3, obs2)
+  /\ forall n d3, In (n, d3) (dp_stores (dr_pool ds3)) ->
+       has n (c_nodes (dr_net ds1)) = true \/ In n (c_outputs (dr_net ds1)) ->
+       In (n, abs_store enc n (ds_batches bs d3)) (stores (abs_pool bs enc (dr_pool ds3))) /\
+       exists d1, In (n, d1) (dp_stores (dr_pool ds1)) /\ k <= List.length (ds_batches bs d1) /\
+                  kill_safe bs orc enc n d1 d3.
+Proof. exact dpool_crash_restart. Qed.
+Print Assumptions C05_on_disk_pool_crash_restart.
+
+(** Non-vacuity: two stores of 2 rows per batch, batch 0 to both.  Before the flush nothing is on
+    disk (the files do not load); after [dp_all _ [PFlush]] every file loads to its store's batch.
+    Store "a" then receives batch 1 and is flushed again: a kill inside that second flush leaves
+    batch 0 alone or batches 0 and 1 (never part of batch 1), under an OS that writes back at once
+    and under one that never does; a kill inside the [store[1] = b] itself leaves batch 0. *)
+Example C05_on_disk_pool_durable_example :
+  let o := fun (_ : name) (_ : nat) => 0 in
+  let dp1 := disk_add_batch 2 o (empty_dpool ["a"; "b"]%string) [("a", c5_b0); ("b", c5_b1)]%string 0 in
+  let files := fun dp => map (fun nd : name * dstore => loads (f_disk (ds_file (snd nd)))) (dp_stores dp) in
+  let pre := compile [] [PGet 0; PAdd 0 c5_b0] ++ [Flush] in
+  dp_reach 2 o dp1
+  /\ files dp1 = [None; None]
+  /\ files (dp_all 2 o dp1 [PFlush]) = [Some (flat [c5_b0]); Some (flat [c5_b1])]
+  /\ compile [c5_b0] [PGet 1; PAdd 1 c5_bx; PFlush] = [Query; Query; Set_ 1 true c5_bx; Flush]
+  /\ map (fun j => loads (crash_disk current 2 (fun _ => 100) (pre ++ [Query; Query]) (Set_ 1 true c5_bx) j)) (seq 0 6)
+     = repeat (Some (flat [c5_b0])) 6
+  /\ map (fun j => loads (crash_disk current 2 (fun _ => 100) (pre ++ [Query; Query; Set_ 1 true c5_bx]) Flush j)) (seq 0 6)
+     = repeat (Some (flat [c5_b0])) 2 ++ repeat (Some (flat [c5_b0; c5_bx])) 4
+  /\ map (fun j => loads (crash_disk current 2 (fun _ => 0) (pre ++ [Query; Query; Set_ 1 true c5_bx]) Flush j)) (seq 0 6)
+     = repeat (Some (flat [c5_b0])) 3 ++ repeat (Some (flat [c5_b0; c5_bx])) 3.
+Proof.
+  cbv zeta. split.
+  - apply (dp_ext_reach 2 (fun _ _ => 0) (empty_dpool ["a"; "b"]%string)); [|apply empty_dpool_reach].
+    apply disk_add_with_ext. intros n d b _ H. cbn in H.
+    destruct (String.eqb n "a"); [inversion H; reflexivity|].
+    destruct (String.eqb n "b"); [inversion H; reflexivity | discriminate].
+  - repeat split; vm_compute; reflexivity.
+Qed.
